@@ -4435,7 +4435,8 @@ void SymbolDatabase::printXml(std::ostream &out) const
 {
     std::string outs;
 
-    std::set<const Variable *> variables;
+    // function arguments met while the scopes are written (they are listed in <variables> after the declared variables)
+    std::vector<const Variable *> argVariables;
 
     // Scopes..
     outs += "  <scopes>\n";
@@ -4543,7 +4544,7 @@ void SymbolDatabase::printXml(std::ostream &out) const
                             outs += "\" variable=\"";
                             outs += id_string(arg);
                             outs += "\"/>\n";
-                            variables.insert(arg);
+                            argVariables.push_back(arg);
                         }
                         outs += "        </function>\n";
                     }
@@ -4601,9 +4602,16 @@ void SymbolDatabase::printXml(std::ostream &out) const
         outs += "  </types>\n";
     }
 
-    // Variables..
-    for (const Variable *var : mVariableList)
-        variables.insert(var);
+    // Variables.. in declaration order, then the function arguments that are not in the variable list. A set ordered by
+    // address would make the order of the elements depend on the memory layout of the run.
+    std::vector<const Variable *> variables(mVariableList.cbegin(), mVariableList.cend());
+    {
+        std::set<const Variable *> seen(mVariableList.cbegin(), mVariableList.cend());
+        for (const Variable *arg : argVariables) {
+            if (seen.insert(arg).second)
+                variables.push_back(arg);
+        }
+    }
     outs += "  <variables>\n";
     for (const Variable *var : variables) {
         if (!var)
